@@ -203,6 +203,65 @@ def wire_message(rng, tmpl, style):
     return m
 
 
+def _entry_corpus():
+    """Seed corpus of ONE-entry collection payloads in the wire layouts the protocol uses for repeatable entries
+    (count + type/length/value records; newline-separated text records).  Which registered serializer takes which of them
+    is found out by trying (reflection), the repetition itself is a generic byte-level transformation."""
+    import struct
+    tlv = [(t, ln) for t in range(0x10, 0x100, 0x10) for ln in (0, 4, 16, 17, 24, 28, 44, 49, 64)]
+    recs = [("tlv", struct.pack("<HI", t, ln) + bytes(ln)) for t, ln in tlv]
+    recs += [("text", b"AttachItemID STRING RW SV 1"), ("text", b"FirstName STRING RW SV Ab"), ("text", b"Title STRING RW SV x y"),
+             ("text", b"a U32 R S 5")]
+    return recs
+
+
+def _repetition_payloads(se, ser, fresh_block, ctx, limit=6):
+    """Payloads in which an entry / key / type REPEATS (A A, A B A), wherever this serializer's wire format allows it."""
+    ok_entries = {"tlv": [], "text": []}
+    seen_keys = set()
+    for kind, rec in _entry_corpus():
+        one = (b"\x01" + rec) if kind == "tlv" else (rec + b"\x00")
+        st, val = impl_call(ser.deserialize, fresh_block(ctx), one, pod=True)
+        if st == "ok" and val is not se.UNSERIALIZABLE and impl_call(bool, val) == ("ok", True):
+            st, back = impl_call(ser.serialize, fresh_block(ctx), val)
+            key = rec[:2] if kind == "tlv" else rec.split(b" ")[0]          # one entry per type / name
+            if st == "ok" and bytes(back) == one and len(ok_entries[kind]) < 3 and key not in seen_keys:
+                seen_keys.add(key)
+                ok_entries[kind].append(rec)
+    out = []
+    for kind, recs in ok_entries.items():
+        combos = [[a, a] for a in recs[:2]] + [[a, b, a] for a in recs[:1] for b in recs[1:2]] + [[a, b, a, b] for a in recs[:1] for b in recs[1:2]]
+        for combo in combos:
+            raw = (bytes([len(combo)]) + b"".join(combo)) if kind == "tlv" else (b"\n".join(combo) + b"\x00")
+            st, val = impl_call(ser.deserialize, fresh_block(ctx), raw, pod=True)
+            if st == "ok" and val is not se.UNSERIALIZABLE and impl_call(repr, val)[0] == "ok":
+                out.append(raw)
+    return out[:limit]
+
+
+def _embedded_repetition_payloads(se, ser, fresh_block, ctx, pool, limit=6):
+    """For a container payload (found as the shortest all-zero payload the serializer takes): put a collection with
+    repeated entries (from `pool`, found on other serializers) wherever the container has an empty collection (a zero
+    count byte) -- kept if the serializer still reads the result."""
+    base = None
+    for n in range(1, 261):
+        st, val = impl_call(ser.deserialize, fresh_block(ctx), bytes(n), pod=True)
+        if st == "ok" and val is not se.UNSERIALIZABLE and impl_call(repr, val)[0] == "ok":
+            base = bytes(n)
+            break
+    if base is None or len(base) < 8:
+        return []
+    out = []
+    for rep in pool[:4]:
+        for i in range(len(base)):
+            raw = base[:i] + rep + base[i + 1:]
+            st, val = impl_call(ser.deserialize, fresh_block(ctx), raw, pod=True)
+            if st == "ok" and val is not se.UNSERIALIZABLE and impl_call(repr, val)[0] == "ok":
+                out.append(raw)
+                break
+    return out[:limit]
+
+
 class _RecordingBlock:
     """Stands in for a block while probing a serializer: records which sibling fields it asks for."""
 
@@ -260,8 +319,9 @@ def context_cases(rng, thorough):
     import hippolyzer.lib.base.serialization as se
     from hippolyzer.lib.base.message.message import Block
     tmpls = {t.name: (i, t) for i, t in enumerate(c12.templates())}
-    cases, seen_regs, n_falsy = [], [], [0]
-    for (mname, bname, vname), ser in se.SUBFIELD_SERIALIZERS.items():
+    cases, seen_regs, n_falsy, n_rep, rep_pool = [], [], [0], [0], []
+    regs = sorted(se.SUBFIELD_SERIALIZERS.items(), key=lambda kv: (kv[0][2] != "ExtraParams" and "Params" not in kv[0][2], kv[0]))
+    for (mname, bname, vname), ser in regs:
         if mname not in tmpls:
             continue
         ti, tmpl = tmpls[mname]
@@ -326,6 +386,13 @@ def context_cases(rng, thorough):
                             falsy.append(raw)
                 falsy = falsy[:6]
                 n_falsy[0] += len(falsy)
+                rep = _repetition_payloads(se, ser, fresh_block, ctx)
+                if rep:
+                    rep_pool.extend(r_ for r_ in rep if r_[:1] in (b"\x02", b"\x03") and r_ not in rep_pool)
+                elif rep_pool and not switched:
+                    rep = _embedded_repetition_payloads(se, ser, fresh_block, ctx, rep_pool)
+                n_rep[0] += len(rep)
+                falsy = falsy + rep
             if not switched:
                 maxlen = tvar.size if c12.tyname(tvar) == "Fixed" else (255 if tvar.size == 1 else 4000)
                 for p_ in falsy:
@@ -363,6 +430,7 @@ def context_cases(rng, thorough):
             for p_ in payloads:
                 cases.append((ti, ("ctx", bname, vname, ctx, p_)))
     context_cases.falsy_noncanonical = n_falsy[0]
+    context_cases.repeated_entries = n_rep[0]
     return cases, seen_regs
 
 
@@ -618,6 +686,9 @@ def _texts(chk: Check, per_template, n_fuzz):
     chk.cov["context_switched_serializers"] = ctx_regs
     chk.cov["context_switched_cases"] = len(ctx_cases)
     chk.cov["falsy_noncanonical_payloads"] = context_cases.falsy_noncanonical
+    chk.cov["repeated_entry_payloads"] = context_cases.repeated_entries
+    if context_cases.repeated_entries < 2:
+        raise common.MachineryError("no payload with repeated collection entries was accepted by any subfield serializer")
     if context_cases.falsy_noncanonical < 1:
         raise common.MachineryError("reflection found only %d non-canonical encodings of falsy subfield values" % context_cases.falsy_noncanonical)
     if len(ctx_regs) < 5:
